@@ -206,6 +206,7 @@ func c05Scenario(r *sim.Run) {
 	var dialErr error
 	desc := fmt.Sprintf("script=%d hdr=%v coalesce=%v recvcap=%d drain=%v", scriptID, proxyHeader, coalesce, recvCap, drain)
 	dataWithErr := [2]bool{}
+	hdrShortFault := false
 	for _, f := range faults {
 		if f.op == 4 {
 			dialErr = simnet.DialShapes[f.shape].Make(covertAddr)
@@ -218,6 +219,10 @@ func c05Scenario(r *sim.Run) {
 		ends[f.end].PlanFault(c05Ops[f.op], f.idx, ft)
 		if ft.Kind == "data+err" {
 			dataWithErr[f.end] = true
+		}
+		if proxyHeader && f.end == 1 && f.op == 1 && f.idx == 0 && ft.Kind == "short" {
+			// a short count without an error on the PROXY-header write is not the end of a relay direction
+			hdrShortFault = true
 		}
 		desc += fmt.Sprintf(" fault[%s %s#%d %s]", ends[f.end].Name, c05Ops[f.op], f.idx, sh.Name)
 		r.Cover(ends[f.end].Name, c05Ops[f.op], fmt.Sprint(f.idx), sh.Name)
@@ -341,9 +346,30 @@ func c05Scenario(r *sim.Run) {
 		}
 		return l
 	}
+	delayed := ""
 	st := sim.Drive(r, s, sim.DriveOpt{Horizon: horizon, MaxSteps: 5000, Until: func() bool {
 		return proxyReturned.Load() && len(sysLive()) == 0
+	}, Each: func() {
+		// "When either direction ends for any reason both connections are closed": the first
+		// failed/ended operation on either station end is the end of a direction; both ends
+		// must be closed before simulated time moves on (pending closes are scheduling delay,
+		// not simulated time).
+		if !dialed || delayed != "" || hdrShortFault {
+			return
+		}
+		t1 := cliS.FirstErr()
+		if t2 := covS.FirstErr(); !t2.IsZero() && (t1.IsZero() || t2.Before(t1)) {
+			t1 = t2
+		}
+		if !t1.IsZero() && time.Now().After(t1) && (!cliS.IsClosed() || !covS.IsClosed()) {
+			delayed = fmt.Sprintf("a relay direction ended at t=%v but at t=%v client end closed=%v, covert end closed=%v", t1.Sub(sim.Epoch), r.Elapsed(), cliS.IsClosed(), covS.IsClosed())
+		}
 	}})
+	if delayed != "" && !r.Failed() {
+		if r.Fail("C05/teardown-delayed", "%s", delayed) {
+			return
+		}
+	}
 	r.Logf("drive ended: %v system tasks live=%d", st, len(sysLive()))
 	defer func() {
 		// world teardown: abort the tasks, close every connection end so held peers leave
